@@ -25,7 +25,7 @@ RULE = ("(1) grammar-derived files: a prelude of no-op functions followed by 1..
         "argument boundaries == reference lexer (legacy commands skipped and counted); (3) the reference lexer is itself "
         "compared with CMake on every sampled file. Non-trivial (1): >=3 argument forms and one of {escape, bracket level "
         ">=1, nested parentheses, non-ASCII, comment adjacent to an argument}; distinct by SHA-1 of the case")
-RULE_MORE = "dispatch-colliding command names as in C02; known commands (set, option, cpp_*, ct_*) spelled lower/UPPER/Title case with doccomments; one-line doccomment-shaped comments '#[[[ text #]]' at the end of the file."
+RULE_MORE = "dispatch-colliding command names as in C02; known commands (set, option, cpp_*, ct_*) spelled lower/UPPER/Title case with doccomments; one-line doccomment-shaped comments '#[[[ text #]]' at the end of the file. (round 10) documented generic commands whose group nests 150 / 350 / 600 levels deep, documented by a fresh interpreter."
 ASSUMPTIONS = ["CMake 3.25.1 (`cmake -P`, trace) is the lexical judge; only executed commands are traced, so files are flat "
                "sequences of calls to prelude-defined no-op functions", "legacy unquoted arguments are outside the guarantee",
                "sources are UTF-8 without BOM"]
@@ -167,6 +167,12 @@ def evaluate(case):
         for f in fails:
             res.fail(*f)
         return res
+    if "deep_nesting" in case:
+        _, fails = _deep_one(int(case["deep_nesting"]))
+        r = Result(nontrivial=True)
+        for f in fails:
+            r.fail(*f)
+        return r
     if "large_file" in case:
         _, fails = _large_one(tuple(case["large_file"]))
         for f in fails:
@@ -483,8 +489,48 @@ def large_file_campaign(ctx):
             ctx.record({"large_file": list(variant)}, r)
 
 
+def _deep_one(depth):
+    """A documented generic command with a parenthesised group nested `depth` levels deep (CMake parses it), documented by a
+    fresh interpreter so that the depth of the harness' own stack plays no role."""
+    import sys
+    import shutil
+    from vlib import SRC
+    d = os.path.join(scratch_dir(), f"c05-deep-{os.getpid()}-{depth}")
+    shutil.rmtree(d, ignore_errors=True)
+    os.makedirs(os.path.join(d, "cfg"))
+    src = "#[[[\n# Deeply nested condition DEEPDOC.\n#]]\nmy_custom_cmd(FIRST " + "(" * depth + "A AND B" + ")" * depth + " LAST)\n"
+    with open(os.path.join(d, "deep.cmake"), "w") as f:
+        f.write(src)
+    code = f"import sys; sys.path.insert(0, {SRC!r}); import warnings; warnings.simplefilter('ignore'); import cminx; cminx.main(sys.argv[1:])"
+    p = subprocess.run([sys.executable, "-c", code, os.path.join(d, "deep.cmake"), "-o", os.path.join(d, "out")], cwd=d,
+                       env=dict(os.environ, CMINXDIR=os.path.join(d, "cfg"), HOME=os.path.join(d, "cfg")), capture_output=True, text=True)
+    fails = []
+    page = os.path.join(d, "out", "deep.rst")
+    if p.returncode != 0 or not os.path.exists(page):
+        fails.append(("valid-input-rejected:deep-nesting", f"depth {depth}: exit {p.returncode}, page written={os.path.exists(page)}: {p.stderr[-200:]}"))
+    else:
+        text = open(page, encoding="utf-8").read()
+        sig = [l for l in text.split("\n") if l.startswith(".. function:: my_custom_cmd(")]
+        if len(sig) != 1 or not sig[0].startswith(".. function:: my_custom_cmd(FIRST ") or not sig[0].endswith(" LAST)") \
+                or "(" * depth not in sig[0] or "DEEPDOC" not in text:
+            fails.append(("documented-generic-deep-nesting", f"depth {depth}: entry {[x[:60] + '...' + x[-30:] for x in sig]}"))
+    shutil.rmtree(d, ignore_errors=True)
+    return depth, fails
+
+
+def deep_nesting_campaign(ctx):
+    with multiprocessing.Pool(3) as pool:
+        for depth, fails in pool.map(_deep_one, [150, 350, 600]):
+            r = Result(nontrivial=True)
+            r.labels.append("nesting-depth>=150")
+            for f in fails:
+                r.fail(*f)
+            ctx.record({"deep_nesting": depth}, r)
+
+
 def extra(ctx):
     large_file_campaign(ctx)
+    deep_nesting_campaign(ctx)
     files = corpus_files()
     if not files:
         ctx.note("corpus_files", 0)
